@@ -263,10 +263,11 @@ FrameBytes(st, fr, chans, number) ==
 -----------------------------------------------------------------------------
 (* the stream: plan.pcm = sequence of channels (each a sequence of samples for the whole stream) *)
 StreamInfoBytes(st, minbs, maxbs, total, md5) ==
+    \* "total_hi": the upper 12 bits of the 36-bit total (units of 2^24 samples): a total beyond what the file holds
     \* "si_rate" / "si_channels" / "si_bps": a STREAMINFO that disagrees with what the (self-describing) frame headers say
     Pack(PutU(minbs, 16) \o PutU(maxbs, 16) \o PutU(0, 24) \o PutU(0, 24) \o PutU(Get(st, "si_rate", st.rate), 20)
          \o PutU(Get(st, "si_channels", st.channels) - 1, 3)
-         \o PutU(Get(st, "si_bps", st.bps) - 1, 5) \o PutU(0, 12) \o PutU(total, 24)) \o md5
+         \o PutU(Get(st, "si_bps", st.bps) - 1, 5) \o PutU(Get(st, "total_hi", 0), 12) \o PutU(total, 24)) \o md5
 
 SerializeStream(plan) ==
     LET st == plan
